@@ -74,6 +74,41 @@ def native_regrouped(name, conc, notes):
             "detail": f"real objects, byte ranges in the second group's array: {spans}; overlapping: {overlaps}"}
 
 
+def native_history(contract, conc):
+    """the lemma's function on a real loaded ProcessSyncGroup; the 'other
+    process' writes the shared array directly"""
+    from contracts import c29_process as S
+    from ebpfcat.ebpfcat import Device, DeviceVar, ProcessSyncGroup
+
+    class Axis(Device):
+        status = DeviceVar("i", write=True)
+
+    class EC:
+        pass
+    a = Axis()
+    g = ProcessSyncGroup(EC(), [a])
+    v = conc["v"] if conc else 5
+    w = conc["w"] if conc else 9
+    import struct
+
+    def other(dev, w):
+        arr = g.__dict__[S.MAPNAME]
+        o = dev.__dict__["status"]
+        arr[o:o + 4] = struct.pack("i", w)
+    saved = S.other_process_writes
+    S.other_process_writes = other
+    try:
+        got = contract.target(a, v, w)
+    except Exception as e:      # noqa
+        return {"inputs": {"v": v, "w": w}, "reproduced": True, "detail": f"{type(e).__name__}: {e}"}
+    finally:
+        S.other_process_writes = saved
+    want = v if contract.target.__name__ == "write_other_write_read" else w
+    return {"inputs": {"v": v, "w": w}, "reproduced": got != want,
+            "detail": f"real ProcessSyncGroup: {contract.target.__name__}(device, {v}, {w}) returned {got}, "
+                      f"expected {want}"}
+
+
 def run(tier, seed):
     from contracts import c29_process as S
     rep = R.Report("C29", tier, seed)
@@ -94,6 +129,8 @@ def run(tier, seed):
     try:
         api.verify(S.init_contract(), rep, replay=native)
         api.verify(S.init_contract(stale=True), rep, replay=native_regrouped)
+        for c in S.history_lemmas():
+            api.verify(c, rep, replay=lambda n, i, nt, c=c: native_history(c, i))
     finally:
         api.REGISTRY.clear()
         api.REGISTRY.update(saved)
